@@ -322,6 +322,7 @@ def coverage_of(results, level="model_checking"):
         "cases_executed_on_impl": cases,
         "impl_runs": runs,
         "case_kinds": kinds,
+        "outside_property_differences": sum((r.get("ah") or {}).get("outside_property_differences", 0) for r in results),
         "families": fams,
         "samples": samples[:6] or [{"note": "no cases"}],
         "sets": [{"name": r["cases"], "tlc_cases": r["tlc"]["distinct"], "executed": (r.get("ah") or {}).get("cases"),
